@@ -13,6 +13,7 @@ import (
 	"context"
 	"encoding/json"
 	"fmt"
+	"math"
 	"os"
 	"os/exec"
 	"reflect"
@@ -199,6 +200,9 @@ func (e *gEnc) enc(v reflect.Value) string {
 // exported fields.
 type gCanon struct {
 	skipUnexported bool
+	ov             bool            // C02 overlay streams: slices have identity (backing arrays are numbered), scalars of every kind are rendered
+	seenSl         map[uintptr]int // ov: slice backing arrays by data pointer
+	n              int             // next first-visit number
 	seen           map[uintptr]int
 	out            []string
 	strs           map[string]int
@@ -231,7 +235,8 @@ func (c *gCanon) render(v reflect.Value, exported bool) {
 			c.out = append(c.out, fmt.Sprintf("p#%d", k))
 			return
 		}
-		k := len(c.seen)
+		k := c.n
+		c.n++
 		c.seen[v.Pointer()] = k
 		c.out = append(c.out, fmt.Sprintf("p#%d=", k))
 		c.render(v.Elem(), exported)
@@ -247,7 +252,8 @@ func (c *gCanon) render(v reflect.Value, exported bool) {
 			c.out = append(c.out, fmt.Sprintf("m#%d", k))
 			return
 		}
-		k := len(c.seen)
+		k := c.n
+		c.n++
 		c.seen[v.Pointer()] = k
 		c.out = append(c.out, fmt.Sprintf("m#%d=(", k))
 		for _, key := range sortedKeys(v) {
@@ -263,7 +269,18 @@ func (c *gCanon) render(v reflect.Value, exported bool) {
 		if exported && v.Cap() > 0 && v.Type().Elem().Size() > 0 {
 			c.addrs[v.Pointer()] = true
 		}
-		c.out = append(c.out, fmt.Sprintf("l:%d=(", v.Len()))
+		if c.ov {
+			if k, ok := c.seenSl[v.Pointer()]; ok && v.Cap() > 0 && v.Type().Elem().Size() > 0 {
+				c.out = append(c.out, fmt.Sprintf("l#%d:%d", k, v.Len()))
+				return
+			}
+			k := c.n
+			c.n++
+			c.seenSl[v.Pointer()] = k
+			c.out = append(c.out, fmt.Sprintf("l#%d:%d=(", k, v.Len()))
+		} else {
+			c.out = append(c.out, fmt.Sprintf("l:%d=(", v.Len()))
+		}
 		full := v.Slice(0, v.Cap())
 		for i := 0; i < full.Len(); i++ {
 			c.render(full.Index(i), exported)
@@ -301,10 +318,41 @@ func (c *gCanon) render(v reflect.Value, exported bool) {
 	case reflect.String:
 		c.out = append(c.out, fmt.Sprintf("s%d", c.str(v.String())))
 	case reflect.Int, reflect.Int64:
+		if c.ov {
+			c.out = append(c.out, fmt.Sprintf("s%d", scalarCode(v)))
+			return
+		}
 		c.out = append(c.out, fmt.Sprintf("s%d", v.Int()))
 	default:
+		if c.ov {
+			c.out = append(c.out, fmt.Sprintf("s%d", scalarCode(v)))
+			return
+		}
 		c.out = append(c.out, "s0")
 	}
+}
+
+// scalarCode: a natural number for a value of any reference-free kind other than string (C02 overlay streams)
+func scalarCode(v reflect.Value) uint64 {
+	switch v.Kind() {
+	case reflect.Bool:
+		if v.Bool() {
+			return 1
+		}
+		return 0
+	case reflect.Int, reflect.Int8, reflect.Int16, reflect.Int32, reflect.Int64:
+		return uint64(v.Int())
+	case reflect.Uint, reflect.Uint8, reflect.Uint16, reflect.Uint32, reflect.Uint64, reflect.Uintptr:
+		return v.Uint()
+	case reflect.Float32, reflect.Float64:
+		return math.Float64bits(v.Float())
+	case reflect.Chan, reflect.Func, reflect.UnsafePointer:
+		if v.IsNil() {
+			return 0
+		}
+		return 1
+	}
+	return 0
 }
 
 func canonGoExported(v reflect.Value, strs map[string]int) string {
